@@ -60,6 +60,7 @@ type Exec struct {
 	curEnv  map[ssa.Value]*Val
 	curBlock *ssa.BasicBlock
 	disc    *discovery
+	unfoldLevels int
 }
 
 func (x *Exec) fail(format string, a ...any) {
